@@ -214,3 +214,27 @@ def run(ctx):
         m.rel,
         nf.lineno,
     )
+
+    # ---- C13.7 whether a callback was given is an identity test -------------------------------------------------
+    # `if resolver:` asks for the callable's truth value: a callable object with __bool__/__len__ that is falsy (an empty callable container, a
+    # Mock configured falsy) is treated as "no callback given" and silently replaced by the pass-through -- a registered callback that never runs.
+    r7 = ctx.rule("C13.7", "then() decides `callback given?` with `is (not) None`, not with the callable's truth value", floor=2)
+    th = m.func("Promise.then")
+    params7 = [a.arg for a in th.args.args[1:]]
+    n7 = 0
+    for t in ast.walk(th):
+        if isinstance(t, (ast.If, ast.IfExp)):
+            names = {n.id for n in ast.walk(t.test) if isinstance(n, ast.Name)} & set(params7)
+            if not names:
+                continue
+            n7 += 1
+            ident = isinstance(t.test, ast.Compare) and len(t.test.ops) == 1 and isinstance(t.test.ops[0], (ast.Is, ast.IsNot)) and isinstance(t.test.comparators[0], ast.Constant) and t.test.comparators[0].value is None
+            r7.check(
+                ident,
+                f"{m.rel}:Promise.then:callback-given:{sorted(names)[0]}",
+                f"`{src(t.test)}` tests the truth value of the callback: a callable whose bool() is False is not registered (the pass-through is registered instead) and never runs",
+                m.rel,
+                t.lineno,
+            )
+    if n7 < 2:
+        raise AnalysisError(f"Promise.then: only {n7} callback-given tests found", "Promise.then")
